@@ -640,21 +640,27 @@ _dispatch_transform_from_base32_with_table(dispatch_data_t data,
 			}
 		}
 
-		size_t final = (size_t)(ptr - dest);
+		size_t final = (size_t)(ptr - dest), trim = 0;
 		switch (pad) {
 		case 1:
-			final -= 1;
+			trim = 1;
 			break;
 		case 3:
-			final -= 2;
+			trim = 2;
 			break;
 		case 4:
-			final -= 3;
+			trim = 3;
 			break;
 		case 6:
-			final -= 4;
+			trim = 4;
 			break;
 		}
+		if (trim > final) {
+			// padding without the data it pads: malformed input
+			free(dest);
+			return (bool)false;
+		}
+		final -= trim;
 
 		dispatch_data_t val = dispatch_data_create(dest, final, NULL,
 				DISPATCH_DATA_DESTRUCTOR_FREE);
@@ -888,6 +894,11 @@ _dispatch_transform_from_base64(dispatch_data_t data)
 
 		size_t final = (size_t)(ptr - dest);
 		if (pad > 0) {
+			if (pad > final) {
+				// padding without the data it pads: malformed input
+				free(dest);
+				return (bool)false;
+			}
 			// 2 bytes of pad means only had one char in final group
 			final -= pad;
 		}
